@@ -83,7 +83,7 @@ type c17Obs struct {
 	Steps [][]int  `json:"steps"` // fns after each op
 	Crash bool     `json:"crash,omitempty"`
 	// processor.callbacks after the last op, read by reflection: [name, before, after, remove, replace] per record
-	Table [][]interface{} `json:"table,omitempty"`
+	Table [][]interface{} `json:"table"`
 	Alias []int           `json:"alias,omitempty"` // per record: index of the first record that is the SAME pointer
 	Get   []int           `json:"get,omitempty"`   // processor.Get(n) for n in c17GetNames: handler id, -1 = nil
 	Other *c17Obs         `json:"other,omitempty"`
@@ -1166,6 +1166,19 @@ func c17Classify(c c17Case, obs c17Obs, v string) string {
 	}
 	if strings.Contains(v, "registered After(") && f16 {
 		return "F16-C17-before-overwrites-after-request"
+	}
+	// F16, second symptom: the overwritten request is X's After("*"): X stops being a '*' record, so the pre-pass of
+	// the NEXT compile no longer keeps it behind the other '*' callbacks -- an unrelated plain Replace moves it
+	if strings.Contains(v, "did not take the replaced") {
+		for _, o := range c.Ops {
+			if o.Op != "remove" && o.Before != "" && o.Before != "*" && o.Before != o.Name {
+				for _, x := range c.Ops {
+					if x.Op != "remove" && x.Name == o.Before && x.After == "*" {
+						return "F16-C17-before-overwrites-after-request"
+					}
+				}
+			}
+		}
 	}
 	// F20: a name N made a request Before(X)/After(X), was removed, and is registered again later: the
 	// back-link the first N left on X (`cs[idx].after = N` / `after.before = N`) survives the Remove and now
